@@ -1,5 +1,6 @@
 import ClusterVerif.Model.C16
 import ClusterVerif.Model.C16Aux
+import ClusterVerif.Model.C16Ctx
 /-!
 # C16 — the property, clause by clause, over what a run *shows*
 
@@ -99,6 +100,12 @@ def cStallTimesOut (i : Input) (o : Output) : Bool :=
 
 def cReturns (o : Output) : Bool := o.res != .hang && o.res != .panic
 
+/-- a pin is given up by the connector itself, within its configured times, whichever request of the
+conversation (the look-up of the CID, of the update source, pin/update, pin/add) the daemon does not
+answer: `Pin` never returns only because the caller's own context ran out -/
+def cPinGivesUp (i : Input) (o : Output) : Bool :=
+  !(i.op == .pin) || (o.res != .errctx && o.res != .hang)
+
 /-- pin/update only from the pin's own, recursively pinned source, to the CID -/
 def cUpdateOnlyIfRecursive (i : Input) (o : Output) : Bool :=
   o.trace.all (fun r => match r with
@@ -126,6 +133,7 @@ def clauses (i : Input) (o : Output) : List (String × Bool) :=
     ("unpin_absent_ok", cUnpinAbsentOk i o),
     ("stall_times_out", cStallTimesOut i o),
     ("returns", cReturns o),
+    ("pin_gives_up", cPinGivesUp i o),
     ("update_only_if_recursive", cUpdateOnlyIfRecursive i o),
     ("update_unpin_false", cUpdateUnpinFalse o),
     ("source_kept", cSourceKept i o) ]
